@@ -78,8 +78,23 @@ func checkC19(c *Ctx) {
 			}
 		}
 	})
-	openSinks := c.Method(zp, "Config", "openSinks")
 	build := c.Method(zp, "Config", "Build")
+	// openSinks: the helper through which Build opens the output and the error-output sinks (a function or method of
+	// package zap that Build calls and that calls Open), if there is one
+	var openSinks *ssa.Function
+	if build != nil && Open != nil {
+		for _, cl := range Calls(build) {
+			h := StaticCallee(cl)
+			if h == nil || h == Open || h.Pkg == nil || h.Pkg.Pkg.Path() != zp {
+				continue
+			}
+			for _, c2 := range Calls(h) {
+				if StaticCallee(c2) == Open {
+					openSinks = h
+				}
+			}
+		}
+	}
 	if !c.Anchor("R19.1", "zap.open/Open/Config.Build", open != nil && Open != nil && build != nil) {
 		return
 	}
